@@ -481,6 +481,59 @@ def job_mc_graph(jc):
 
 
 
+# ------------------------------------------------------------ generate_svgs_from_colr: each glyph drawn in its own region
+
+
+def _view_boxes(widths):
+    import importlib
+    import sys
+    from absl import flags
+
+    name = "nanoemoji.generate_svgs_from_colr"
+    if name not in sys.modules:
+        try:
+            importlib.import_module(name)
+        except flags.DuplicateFlagError:
+            spec = importlib.util.find_spec(name)
+            src = open(spec.origin).read().replace("flags.DEFINE_string(", "(lambda *a, **k: None)(")
+            mod = importlib.util.module_from_spec(spec)
+            sys.modules[name] = mod
+            exec(compile(src, spec.origin, "exec"), mod.__dict__)
+    G = sys.modules[name]
+    font = _MetricsFont(1000, 950, -250, 950, -250, 128, 0)
+    font["hmtx"] = {f"g{i}": (w, 0) for i, w in enumerate(widths)}
+    return [tuple(G._view_box(font, f"g{i}")) for i in range(len(widths))], G
+
+
+def replay_view_boxes(inp):
+    ws = [int(inp["w0"]), int(inp["w1"])]
+    got, _ = _view_boxes(ws)
+    want = [(0, -950, w, 1200) for w in ws]
+    if [tuple(float(v) for v in g) for g in got] != [tuple(float(v) for v in w) for w in want]:
+        return {"advances": ws, "view boxes": got, "expected (0, -ascender, advance, em height) per glyph": want}
+    return None
+
+
+def job_view_boxes(jc):
+    """generate_svgs_from_colr._view_box for two glyphs of one font with symbolic advances: each gets the region of its own advance"""
+    _, G = _view_boxes([500, 600])
+    jc.encode(G._view_box)
+    inp = {"w0": core.SymNum(z3.Int("w0")), "w1": core.SymNum(z3.Int("w1"))}
+
+    def body():
+        return _view_boxes([core.integer("w0", 1, 4000), core.integer("w1", 1, 4000)])[0]
+
+    for r in jc.explore(body):
+        if not jc.no_exception(r, inp, replay_view_boxes, "C12:view-box:raises"):
+            continue
+        jc.reach(r, "ok")
+        b0, b1 = r.value
+        eq = lambda b, w: z3.And(core.as_term(b[0]) == 0, core.as_term(b[1]) == -950, core.as_term(b[2]) == z3.Int(w), core.as_term(b[3]) == 1200)
+        jc.prove(r, z3.And(eq(b0, "w0"), eq(b1, "w1")), "each colour glyph is drawn in the region of its own advance (0, -ascender, advance, em height)", inp, replay_view_boxes, key="C12:view-box")
+    jc.expect_reached("ok")
+
+
+
 def copy_svg_jobs(tier):
     perms = [tuple(range(len(NAMES))), (0, 6, 5, 4, 3, 2, 1), (0, 3, 1, 5, 2, 6, 4)]
     if tier != "quick":
@@ -498,9 +551,10 @@ def jobs(tier):
     js.append(Job("extract svg_glyphs", job_svg_glyphs))
     js.append(Job("WriteFontInputs mapping", job_inputs_mapping))
     js.append(Job("mergeable config metrics", job_mergeable_config))
+    js.append(Job("generate_svgs view boxes", job_view_boxes))
     for table in ("COLR", "SVG "):
         js.append(Job(f"maximum_color graph[{table.strip()} input]", job_mc_graph, table=table))
-    for t in ("Transform>glyph>solid", "Translate>Scale>glyph", "glyph>linear", "glyph>radial", "layers(+nested,currentColor,composite glyph)", "group-opacity composite", "PaintColrGlyph", "three glyphs sharing a gradient"):
+    for t in ("Transform>glyph>solid", "Translate>Scale>glyph", "glyph>linear", "glyph>radial", "layers(+nested,currentColor,composite glyph)", "group-opacity composite", "group-opacity composite (translucent black palette entry)", "PaintColrGlyph", "three glyphs sharing a gradient"):
         js.append(Job(f"colr->svg[{t}]", C13.job_c13, template=t, viewbox="150off", npal=1))
     js.append(Job("colr0->svg", C13.job_colr0, viewbox="150off", npal=1))
     js.append(Job("reorder whole_font (layout meaning)", C11.job_whole_font))
